@@ -79,8 +79,8 @@ type FuncContract struct {
 	HasAssigns   bool
 	Nilable      map[string]bool
 	Ghosts       []MacroParam // ghost NAME: TYPE, ...: logical variables of the contract, universally quantified (fresh constants in the VCs); clauses that mention one are not checked at run time
-	Fresh        bool // result is a freshly allocated object
-	Trusted      bool // body not verified
+	Fresh        bool         // result is a freshly allocated object
+	Trusted      bool         // body not verified
 	TrustWhy     string
 	Layer1       bool
 	Always       []string          // always SITE: the library call at SITE is made on every path to every return
